@@ -1,3 +1,4 @@
 import TdxProofs.Props.C09
 import TdxProofs.Props.C15
 import TdxProofs.Props.C20
+import TdxProofs.Props.C17
